@@ -2278,15 +2278,21 @@ class OrderedNamespaceSet(NamespaceSet[_NSO], MutableSequence[_NSO], Generic[_NS
                 raise ValueError(f"attempt to assign sequence of size {len(new_items)} to extended slice of size "
                                  f"{len(deleted_items)}")
             successful_new_items = []
+            n_before = len(self._order)
             try:
                 for i in new_items:
                     super().add(i)
+                    # make the item visible to the add hook of the following items (e.g. AASd-114 compares the new
+                    # item with all contained ones); the provisional tail is dropped again below
+                    self._order.append(i)
                     successful_new_items.append(i)
             except Exception:
                 # Do a rollback, when an exception occurs while adding items
+                del self._order[n_before:]
                 for i in successful_new_items:
                     super().remove(i)
                 raise
+            del self._order[n_before:]
             self._order[s] = new_items
         for i in deleted_items:
             super().remove(i)
